@@ -1,16 +1,78 @@
 (** C13 - Thrift metadata round-trips and is genuine compact protocol.
-    This file only restates lemmas proved in Thrift/*Proofs.v (specification: Thrift/ThriftSpec.v, written
-    from the compact-protocol text; model: Thrift/ThriftModel.v mirroring thrift_encode.c / thrift_decode.c and
-    Thrift/ParquetMetaModel.v + ParquetMetaDesc.v mirroring parquet_types.c). *)
+    This file only restates lemmas proved in Thrift/*.v.
+      specification  Thrift/ThriftSpec.v           (compact protocol, written from the protocol text; no carquet)
+      model          Thrift/ThriftModel.v          (thrift_encode.c / thrift_decode.c, function by function)
+                     Thrift/ParquetMetaDesc.v      (descriptor tables for parquet_types.c)
+                     Thrift/ParquetMetaModel.v     (generic descriptor-driven writer / parser)
+                     Thrift/ParquetMetaSem.v       (to_tval, interp, norm, wf, typed)
+    The model is the code as repaired by /repo commits 970c3cc, e3562e1 (thrift_skip) and 1aabf2d (data page
+    statistics). *)
 From Coq Require Import ZArith NArith List.
-From Carquet Require Import Base.Res Thrift.ThriftSpec Thrift.ThriftModel Thrift.ThriftProofs.
-From Carquet Require Import Thrift.ParquetMetaDesc Thrift.ParquetMetaModel Thrift.ParquetMetaProofs.
+From Carquet Require Import Base.Res Thrift.ThriftSpec Thrift.ThriftSpecProofs Thrift.ThriftModel Thrift.ThriftProofs Thrift.ThriftConform.
+From Carquet Require Import Thrift.ParquetMetaDesc Thrift.ParquetMetaModel Thrift.ParquetMetaSem Thrift.ParquetMetaProofs Thrift.ParquetMetaRoundtrip.
 Import ListNotations.
 Local Open Scope N_scope.
 
-(** thrift_skip (as repaired by commits 970c3cc and e3562e1) never reads outside the buffer, never runs out
-    of the model's loop fuel, and never needs more C stack frames than THRIFT_MAX_NESTING - for every type
-    code and every decoder state (any bytes). *)
+(* ------------------------------------------------------------------------------------------------------ *)
+(** ** The specification is coherent *)
+
+(** [spec_decode] (executable, type-directed by the wire types in the stream) accepts exactly the relation
+    [Encodes]: sound and complete. *)
+Theorem spec_decode_is_the_relation : forall bs v, spec_decode bs = Some v <-> Encodes bs v.
+Proof. exact spec_decode_iff. Qed.
+Print Assumptions spec_decode_is_the_relation.
+
+(** the canonical encoder round-trips through the reader on every value the protocol can carry *)
+Theorem spec_encode_decode : forall fs, tval_ok (VStruct fs) -> spec_decode (spec_encode (VStruct fs)) = Some (VStruct fs).
+Proof. exact spec_encode_roundtrip. Qed.
+Print Assumptions spec_encode_decode.
+
+(* ------------------------------------------------------------------------------------------------------ *)
+(** ** Primitives (C integer widths), all inputs *)
+
+(** every uint64_t: at most 10 bytes written, read back exactly *)
+Theorem varint_roundtrip_all : forall v, v < 2 ^ 64 ->
+  exists bs, varint_bytes v = Ok bs /\ (length bs <= 10)%nat /\
+    forall tail pos lf, exists d', read_varint (d_of bs tail pos lf) = Ok (v, d') /\ at_ d' tail (pos + N.of_nat (length bs)) lf.
+Proof. exact varint_roundtrip. Qed.
+Print Assumptions varint_roundtrip_all.
+
+(** the reader accepts every legal varint, zero-padded ones included *)
+Theorem read_varint_accepts_every_legal_varint : forall n l d tail pos lf, varint n l -> at_ d (l ++ tail) pos lf ->
+  exists d', read_varint d = Ok (n, d') /\ at_ d' tail (pos + N.of_nat (length l)) lf.
+Proof. exact read_varint_spec. Qed.
+Print Assumptions read_varint_accepts_every_legal_varint.
+
+(** zig-zag on the whole int64 range (INT64_MIN and INT64_MAX included) equals the specification's and inverts *)
+Theorem zigzag_roundtrip_all : forall z, in_range 64 z ->
+  zigzag_encode64 z = zz z /\ zigzag_decode64 (zigzag_encode64 z) = z.
+Proof. exact zigzag_roundtrip_both. Qed.
+Print Assumptions zigzag_roundtrip_all.
+
+(** field headers for EVERY pair of int16 ids: short/long switch at gap 15/16, negative gaps, int16 wrap *)
+Theorem field_header_roundtrip_all : forall ty id last st e, 1 <= ty <= 15 -> in_range 16 id -> in_range 16 last ->
+  e_lfid e = last :: st ->
+  exists e' h, write_field_header ty id e = Ok e' /\ wrote e e' h (id :: st) /\
+    forall tail pos st', exists d',
+      read_field_begin (d_of h tail pos (last :: st')) = Ok (Some (ty, id), d') /\
+      after_fhdr d' ty tail (pos + N.of_nat (length h)) (id :: st').
+Proof. exact field_header_roundtrip. Qed.
+Print Assumptions field_header_roundtrip_all.
+
+(** list headers for every size below 2^31 (short/long switch at 14/15), canonical per the specification *)
+Theorem list_header_roundtrip_all : forall et n e, 1 <= et <= 15 -> n < 2 ^ 31 ->
+  exists e', write_list_begin et (Z.of_N n) e = Ok e' /\ wrote e e' (enc_lhdr et n) (e_lfid e) /\
+    forall tail pos lf, (N.to_nat n <= length tail)%nat -> exists d',
+      read_list_begin (d_of (enc_lhdr et n) tail pos lf) = Ok (et, Z.of_N n, d') /\
+      at_ d' tail (pos + N.of_nat (length (enc_lhdr et n))) lf.
+Proof. exact list_header_roundtrip. Qed.
+Print Assumptions list_header_roundtrip_all.
+
+(* ------------------------------------------------------------------------------------------------------ *)
+(** ** thrift_skip *)
+
+(** never reads outside the buffer, never runs out of loop fuel, never needs more than THRIFT_MAX_NESTING
+    frames - every type code, every decoder state, any bytes *)
 Theorem skip_never_faults : forall ty d f, thrift_skip ty d <> Fault f.
 Proof. exact skip_never_faults_all. Qed.
 Print Assumptions skip_never_faults.
@@ -19,22 +81,83 @@ Theorem skip_depth_bounded : forall ty d, thrift_skip ty d <> Fault DepthExceede
 Proof. exact skip_depth_bounded_all. Qed.
 Print Assumptions skip_depth_bounded.
 
-(** The function before commit 970c3cc had no bound: for every number of stack frames there is an input
-    one byte longer that exhausts them (finding F9, fixed). *)
+(** before commit 970c3cc there was no bound: for every number of stack frames, an input one byte longer
+    exhausts them (finding F9, fixed) *)
 Theorem skip_depth_unbounded_before_repair : forall frames, exists bs,
   length bs = S frames /\ skip_unbounded frames 9 (decoder_init bs) = Fault DepthExceeded.
 Proof. exact skip_unbounded_refuted. Qed.
 Print Assumptions skip_depth_unbounded_before_repair.
 
-(** parquet_parse_file_metadata / parquet_parse_page_header on ANY bytes: no read outside the buffer, no
-    fuel or depth exhaustion (they terminate), and the reported byte count stays within the input. *)
+(** skipping an unknown field consumes exactly one legal encoding of ANY value of ANY wire type, nested up
+    to the limit the code enforces *)
+Theorem skip_consumes_any_value : forall v pay d tail pos lf,
+  type_of v <> TBool -> enc (type_of v) v pay ->
+  N.of_nat (vdepth v) <= MAX_NESTING -> len lf + N.of_nat (vdepth v) <= MAX_NESTING ->
+  at_ d (pay ++ tail) pos lf ->
+  exists d', thrift_skip (code (type_of v)) d = Ok d' /\ at_ d' tail (pos + N.of_nat (length pay)) lf.
+Proof. exact thrift_skip_field_spec. Qed.
+Print Assumptions skip_consumes_any_value.
+
+(* ------------------------------------------------------------------------------------------------------ *)
+(** ** FileMetaData and PageHeader *)
+
+(** write_parse and write_is_compact, FileMetaData: for every structure in the writer's domain the bytes
+    written are read by the independent specification reader as [to_tval m] (same field ids, wire types,
+    values), and carquet's parser returns [norm m] having consumed exactly the bytes produced *)
+Theorem write_parse_file_metadata : forall m, wf_file_metadata m ->
+  exists bs, write_file_metadata m = Ok bs /\
+             spec_decode bs = Some (to_tval_file_metadata m) /\
+             parse_file_metadata bs = Ok (norm_file_metadata m, N.of_nat (length bs)).
+Proof. exact file_metadata_roundtrip. Qed.
+Print Assumptions write_parse_file_metadata.
+
+Theorem write_parse_page_header : forall m, wf_page_header m ->
+  exists bs, write_page_header m = Ok bs /\
+             spec_decode bs = Some (to_tval_page_header m) /\
+             parse_page_header bs = Ok (norm_page_header m, N.of_nat (length bs)).
+Proof. exact page_header_roundtrip. Qed.
+Print Assumptions write_parse_page_header.
+
+(** carquet parses the encodings an independent encoder produces: ANY legal encoding (any field order,
+    short or long headers, padded varints, unknown fields of every wire type at every struct) *)
+Theorem parse_accepts_file_metadata : forall fs bs, Encodes bs (VStruct fs) -> typed carquet_tbl FUEL S_FILE_META 0 fs ->
+  parse_file_metadata bs = Ok (interp carquet_tbl FUEL S_FILE_META fs (s_init d_file_meta), N.of_nat (length bs)).
+Proof. exact file_metadata_parse_accepts. Qed.
+Print Assumptions parse_accepts_file_metadata.
+
+Theorem parse_accepts_page_header : forall fs bs, Encodes bs (VStruct fs) -> typed carquet_tbl FUEL S_PAGE_HEADER 0 fs ->
+  parse_page_header bs = Ok (interp carquet_tbl FUEL S_PAGE_HEADER fs (s_init d_page_header), N.of_nat (length bs)).
+Proof. exact page_header_parse_accepts. Qed.
+Print Assumptions parse_accepts_page_header.
+
+(** inserting an unknown field of any wire type (any value within the nesting limit) anywhere among the
+    fields leaves the parse result unchanged *)
+Theorem parse_accepts_unknown_fields_file_metadata : forall fs1 fs2 uid v bs',
+  find_field uid (s_fields d_file_meta) = None ->
+  typed carquet_tbl FUEL S_FILE_META 0 (fs1 ++ fs2) ->
+  N.of_nat (vdepth v) + 1 <= MAX_NESTING ->
+  Encodes bs' (VStruct (fs1 ++ (uid, v) :: fs2)) ->
+  parse_file_metadata bs' = Ok (interp carquet_tbl FUEL S_FILE_META (fs1 ++ fs2) (s_init d_file_meta), N.of_nat (length bs')).
+Proof. exact file_metadata_accepts_unknown_field. Qed.
+Print Assumptions parse_accepts_unknown_fields_file_metadata.
+
+Theorem parse_accepts_unknown_fields_page_header : forall fs1 fs2 uid v bs',
+  find_field uid (s_fields d_page_header) = None ->
+  typed carquet_tbl FUEL S_PAGE_HEADER 0 (fs1 ++ fs2) ->
+  N.of_nat (vdepth v) + 1 <= MAX_NESTING ->
+  Encodes bs' (VStruct (fs1 ++ (uid, v) :: fs2)) ->
+  parse_page_header bs' = Ok (interp carquet_tbl FUEL S_PAGE_HEADER (fs1 ++ fs2) (s_init d_page_header), N.of_nat (length bs')).
+Proof. exact page_header_accepts_unknown_field. Qed.
+Print Assumptions parse_accepts_unknown_fields_page_header.
+
+(** on ANY bytes the parsers never read outside the buffer, terminate, and report a byte count within the input *)
 Theorem parse_metadata_never_faults : forall bs f,
   parse_file_metadata bs <> Fault f /\ parse_page_header bs <> Fault f.
-Proof. intros bs f. split; [apply parse_file_metadata_never_faults | apply parse_page_header_never_faults]. Qed.
+Proof. exact parse_never_faults_both. Qed.
 Print Assumptions parse_metadata_never_faults.
 
 Theorem parse_consumed_within_input : forall bs r c,
   (parse_file_metadata bs = Ok (r, c) -> c <= N.of_nat (length bs)) /\
   (parse_page_header bs = Ok (r, c) -> c <= N.of_nat (length bs)).
-Proof. intros bs r c. split; [apply parse_file_metadata_consumed | apply parse_page_header_consumed]. Qed.
+Proof. exact parse_consumed_both. Qed.
 Print Assumptions parse_consumed_within_input.
